@@ -1,50 +1,3 @@
-// Replay enumerator for the message-selection kernels: real function text, plain rustc.
-use std::collections::HashMap;
-//@@ include prelude/kernel_model_plain.rs
-//@@ item crates/ripd/src/context_compiler.rs struct SelectedMessage
-//@@ fn crates/ripd/src/context_compiler.rs select_recent_messages
-//@@ end
-//@@ fn crates/ripd/src/context_compiler.rs select_recent_messages_after_seq
-//@@ end
-
-fn msg(seq: u64) -> Event {
-    Event { id: format!("m{seq}"), session_id: "t".into(), timestamp_ms: 0, seq,
-            kind: EventKind::ContinuityMessageAppended { actor_id: "u".into(), origin: "o".into(), content: format!("c{seq}") } }
-}
-fn other(seq: u64) -> Event {
-    Event { id: format!("r{seq}"), session_id: "t".into(), timestamp_ms: 0, seq,
-            kind: EventKind::ContinuityRunSpawned { run_session_id: "s".into(), message_id: "m".into(), actor_id: None, origin: None } }
-}
-
-fn main() {
-    let args: Vec<String> = std::env::args().collect();
-    let func = args.get(2).cloned().unwrap_or_default();
-    let after_variant = func.contains("after_seq");
-    // streams of length <= 6 (seq = index), every frame either a message or another continuity frame
-    for n in 0..=6usize {
-        for code in 0..(1usize << n) {
-            let events: Vec<Event> = (0..n).map(|i| if (code >> i) & 1 == 1 { msg(i as u64) } else { other(i as u64) }).collect();
-            for from in 0..=(n as u64) {
-                for limit in 0..=3usize {
-                    let afters: Vec<Option<u64>> = if after_variant { (0..=(n as u64)).map(Some).collect() } else { vec![None] };
-                    for after in afters {
-                        let got: Vec<u64> = match after {
-                            None => select_recent_messages(&events, from, limit).iter().map(|m| m.seq).collect(),
-                            Some(a) => select_recent_messages_after_seq(&events, from, a, limit).iter().map(|m| m.seq).collect(),
-                        };
-                        let all: Vec<u64> = events.iter().filter(|e| matches!(e.kind, EventKind::ContinuityMessageAppended { .. })
-                            && e.seq <= from && after.map(|a| e.seq > a).unwrap_or(true)).map(|e| e.seq).collect();
-                        let want: Vec<u64> = all[all.len().saturating_sub(limit)..].to_vec();
-                        if got != want {
-                            println!("WITNESS {{\"function\": \"{}\", \"message_frame_seqs\": {:?}, \"stream_len\": {}, \"from_seq\": {}, \"after_seq\": {:?}, \"limit\": {}, \"selected\": {:?}, \"expected\": {:?}}}",
-                                if after_variant { "select_recent_messages_after_seq" } else { "select_recent_messages" },
-                                events.iter().filter(|e| matches!(e.kind, EventKind::ContinuityMessageAppended { .. })).map(|e| e.seq).collect::<Vec<_>>(),
-                                n, from, after, limit, got, want);
-                            return;
-                        }
-                    }
-                }
-            }
-        }
-    }
-}
+// vx: label-insensitive
+// The selection kernels, ended_runs_by_message_id and the reply-text aggregation are replayed by the compiler enumerator (shared with unit c08_compile).
+//@@ include units/c08_compile/witness.rs
